@@ -18,7 +18,7 @@ RULE = ("(transform) every parameter set with n <= 3 markets over volatility {0,
         "vector, and all z in {-1,0,1}^n; (history) breadth-first search over sequences of clock advance, drift/volatility/"
         "correlation changes and shocks on a real Fundamentals object driving real Markets, generation chunk 3 and 100; "
         "distinct = parameter sets / canonical history states")
-WIT = ["zero_noise_path", "basis_probe", "affine_probe", "correlated_pair", "zero_vol_market_ignores_z", "hist_shock",
+WIT = ["correlation_given_in_reverse_order", "zero_noise_path", "basis_probe", "affine_probe", "correlated_pair", "zero_vol_market_ignores_z", "hist_shock",
        "hist_param_change", "hist_advance_across_chunk", "hist_past_values_compared", "hist_continuation_checked"]
 VOL = [0, 0.125, 0.25, 0.5]
 DR = [-2.0 ** -6, 0, 2.0 ** -7]
@@ -66,13 +66,18 @@ def transform_cases(nmax):
                     if np.linalg.eigvalsh(C).min() <= 1e-9:
                         continue
                     for init in ((100.0, 50.0, 100.0), ):
-                        yield (vols, drifts, corr, init[:nm])
+                        yield (vols, drifts, corr, init[:nm], False)
+                        if corr:
+                            # the same correlations configured with the later-registered market first
+                            yield (vols, drifts, corr, init[:nm], True)
 
 
 def transform_fn(case, wit):
-    vols, drifts, corr, init = case
+    vols, drifts, corr, init, rev = case
     nm = len(vols)
-    corrd = dict(corr)
+    corrd = {((j, i) if rev else (i, j)): c for (i, j), c in corr}
+    if rev:
+        wit.inc("correlation_given_in_reverse_order")
     C = np.eye(nm)
     for (i, j), c in corr:
         C[i, j] = C[j, i] = c
@@ -128,7 +133,7 @@ def transform_fn(case, wit):
         if not np.allclose(r[:, 0], np.array(drifts) + A @ np.array(zv, dtype=float), atol=1e-12):
             raise Violation("C12.affine", "log-returns are not drift + A z", "%r z=%r" % (case, zv))
         wit.inc("affine_probe")
-    return (vols, tuple(c for _, c in corr))
+    return (vols, tuple(c for _, c in corr), rev)
 
 
 # ------------------------------------------------------------------------------------------------ history BFS
@@ -149,7 +154,7 @@ def zpattern(size, call_no):
 H_OPS = [("adv",)]
 for _i in (0, 1):
     H_OPS += [("drift", _i, -2.0 ** -6), ("drift", _i, 2.0 ** -7), ("vol", _i, 0.0), ("vol", _i, 0.25), ("shock", _i, 0.5), ("shock", _i, 1.5)]
-H_OPS += [("corr", 0, 1, 0.5), ("corr", 0, 1, -0.25), ("uncorr", 0, 1), ("shock", 2, 2.0)]
+H_OPS += [("corr", 0, 1, 0.5), ("corr", 1, 0, -0.25), ("uncorr", 0, 1), ("uncorr", 1, 0), ("shock", 2, 2.0)]
 
 
 class HWorld:
